@@ -56,10 +56,10 @@ NOTES = [
 EXITING = ["busy", "prints", "swallow_finish", "swallow_raise"]
 POSITIONS = ["before_handler", "after_return", "during_next", "after_next", "free"]
 GATED = ["gate_finish", "gate_raise"]
-NEVER = ["swallow", "lock"]
+NEVER = ["swallow", "swallowassign", "lock"]
 
 PROG_FLAGS = {  # prints swallows blocked
-    "busy": "000", "prints": "100", "swallow": "010", "swallowprint": "110", "lock": "001",
+    "busy": "000", "prints": "100", "swallow": "010", "swallowassign": "010", "swallowprint": "110", "lock": "001",
     "swallow_finish": "110", "swallow_raise": "110", "gate_finish": "100", "gate_raise": "100",
 }
 
@@ -257,7 +257,8 @@ def scenario_list(rng, tier):
     if tier == "thorough":
         scs += [dict(sc, e2="threaded") for sc in all_scenarios(0.2)]
         scs += all_scenarios(rng.choice([0.15, 0.3, 0.35]))
-        for _ in range(3):          # natural schedules differ from run to run
+        scs += [dict(sc, e2="threaded") for sc in all_scenarios(rng.choice([0.15, 0.3]))]
+        for _ in range(5):          # natural schedules differ from run to run
             for p in EXITING + NEVER + ["swallowprint"]:
                 scs.append({"program": p, "position": "free", "limit": rng.choice([0.2, 0.25, 0.3])})
     else:
@@ -352,7 +353,10 @@ def judge(o):
     out = []
 
     def bad(claim, what):
-        out.append(({"claim": claim, "survives_and_prints": surv_print}, "%s/%s: %s" % (sc["program"], sc["position"], what)))
+        sig = {"claim": claim, "survives_and_prints": surv_print}
+        if sc["program"] == "swallowassign":
+            sig["survives_and_assigns"] = True
+        out.append((sig, "%s/%s: %s" % (sc["program"], sc["position"], what)))
     # A run whose forcing did not work out (`notes`) still shows what the sandbox REALLY looked like after a
     # timeout under some schedule - every schedule is in the property's scope - so it is judged like any other;
     # only a run that produced no observation at all says nothing.
